@@ -821,7 +821,7 @@ OP(pub_info)
     o.pushKV("decompressed", d.Decompress() ? Hex(d) : std::string());
     secp256k1_pubkey pk;
     std::string lc, lu;
-    if (secp256k1_ec_pubkey_parse(secp256k1_context_static, &pk, p.data(), p.size())) {
+    if (secp256k1_ec_pubkey_parse(secp256k1_context_static, &pk, P(p), p.size())) {
         unsigned char buf[65];
         size_t n = 33;
         secp256k1_ec_pubkey_serialize(secp256k1_context_static, buf, &n, &pk, SECP256K1_EC_COMPRESSED);
@@ -863,10 +863,10 @@ OP(ecdsa_verify)
     o.pushKV("low_s", CPubKey::CheckLowS(sig));
     secp256k1_ecdsa_signature s;
     secp256k1_pubkey pk;
-    bool parsed = secp256k1_ecdsa_signature_parse_der(secp256k1_context_static, &s, sig.data(), sig.size());
+    bool parsed = secp256k1_ecdsa_signature_parse_der(secp256k1_context_static, &s, P(sig), sig.size());
     o.pushKV("strict_parse", parsed);
     bool strict = false;
-    if (parsed && secp256k1_ec_pubkey_parse(secp256k1_context_static, &pk, p.data(), p.size())) {
+    if (parsed && secp256k1_ec_pubkey_parse(secp256k1_context_static, &pk, P(p), p.size())) {
         strict = secp256k1_ecdsa_verify(secp256k1_context_static, &s, msg.begin(), &pk);
     }
     o.pushKV("strict", strict);
